@@ -359,18 +359,29 @@ def run_clamp(sx, what):
 
 
 def run_lifecycle(sx):
-    k = sx.choice("history", 4)
+    k = sx.choice("history", 8)
     mesh = cb.Mesh()
     box = cb.Box([0, 0, 0], [1, 1, 1])
     for ax in range(3):
         box.chop(ax, count=2)
     mesh.add(box)
-    hist = [["grade"], ["backport"], ["assemble", "grade"], ["assemble", "backport"]][k]
+    hist = [["grade"], ["backport"], ["assemble", "grade"], ["assemble", "backport"],
+            # a cleared mesh is not assembled either
+            ["assemble", "clear", "grade"], ["assemble", "clear", "backport"], ["assemble", "grade", "clear", "assemble", "grade"],
+            ["assemble", "backport", "clear", "backport"]][k]
 
     def call():
         for step in hist:
             getattr(mesh, step)()
-    bad = hist[0] != "assemble"
+    # grade/backport need an assembled mesh: the last assemble()/backport() must not be followed by a clear()
+    state, bad = False, False
+    for step in hist:
+        if step in ("grade", "backport") and not state:
+            bad = True
+        if step in ("assemble", "backport"):
+            state = True
+        if step == "clear":
+            state = False
     return judge(sx, f"Mesh: {' -> '.join(hist)}", "C20:lifecycle", call, bad, not bad)
 
 
